@@ -19,12 +19,14 @@ Init == ch = 0 /\ l = 0
 Next == \/ ch = 0 /\ l = 0 /\ ch' \in 1..NCH /\ l' = 0
         \/ ch > 0 /\ l = 0 /\ ch' = ch /\ l' \in { k \in 1..Len(Trace) : k % NCH = ch - 1 }
 
-Invisible(e) == e.with = e.without /\ e.lower_ok
+\* (the index of an engine that holds the rule is the same kind of accelerator: it reports the rule iff the rule matches)
+Invisible(e) == e.with = e.without /\ e.lower_ok /\ e.engine = e.with
 Semantic(e) == e.url = <<>> \/ e.with = Accepts(e.pat, e.mcase, e.url)
 Allowed == l > 0 =>
     LET e == Trace[l] IN
     /\ Invisible(e) \/ ~PrintT(ToJson([kind |-> "REJECT", l |-> l, why |-> "pre-check visible",
-                                        spec |-> [with |-> e.without, lower_ok |-> TRUE], code |-> [with |-> e.with, lower_ok |-> e.lower_ok]]))
+                                        spec |-> [with |-> e.without, lower_ok |-> TRUE, engine |-> e.without],
+                                        code |-> [with |-> e.with, lower_ok |-> e.lower_ok, engine |-> e.engine]]))
     /\ Semantic(e) \/ ~PrintT(ToJson([kind |-> "REJECT", l |-> l, why |-> "mask semantics",
                                        spec |-> [with |-> Accepts(e.pat, e.mcase, e.url)], code |-> [with |-> e.with]]))
 =============================================================================
